@@ -55,19 +55,22 @@ Lemma C17_v0_accepted_value_panics_comparator :
                 /\ rib_cmp (local_path_attrs [a]) 2 competitor 1 = Panic t.
 Proof. exists (AUnknown 0 5 [1]), (mkAttr 5 64 (DBin [1])), P_VALUE_UNWRAP. split; reflexivity. Qed.
 
-(* an AS_PATH segment of type 5 is accepted and as_path_length hits unreachable!() *)
-Lemma C17_v0_accepted_as_path_panics_length :
-  exists x a, from_api_v0 v6none x = Ok (Some a) /\ as_path_length a = Panic P_UNREACHABLE.
-Proof. exists (AAsPath [(5%Z, [1])]), (mkAttr 2 64 (DBin [5; 1; 0; 0; 0; 1])). split; reflexivity. Qed.
-
-(* 256 numbers in one segment: the count byte wraps to 0 and the numbers are
-   re-read as segment headers *)
-Lemma C17_v0_overlong_segment_panics_length :
-  exists x a, from_api_v0 v6none x = Ok (Some a) /\ as_path_length a = Panic P_UNREACHABLE.
+(* an AS_PATH segment of type 5 was accepted (as_path_length then hit unreachable!();
+   since the repair of the AS_PATH helpers it skips it), and 256 numbers in one
+   segment wrapped the count byte to 0 so that the numbers are read as segment
+   headers: both values are outside the wire invariants *)
+Lemma C17_v0_accepted_as_path_type5 :
+  exists x a, from_api_v0 v6none x = Ok (Some a) /\ ~ wf_attr a.
 Proof.
-  exists (AAsPath [(2%Z, repeat 83886080 256)]).
-  eexists. split; [vm_compute; reflexivity|]. vm_compute. reflexivity.
+  exists (AAsPath [(5%Z, [1])]), (mkAttr 2 64 (DBin [5; 1; 0; 0; 0; 1])). split; [reflexivity|].
+  intros [_ [_ [_ Hd]]]. cbn in Hd. destruct Hd as [_ [_ Hw]].
+  inversion Hw as [|t n body rest Ht Hn Hl Hr Heq]. lia.
 Qed.
+
+Lemma C17_v0_overlong_segment_wraps :
+  exists a, from_api_v0 v6none (AAsPath [(2%Z, repeat 83886080 256)]) = Ok (Some a)
+            /\ firstn 4 (match a_data a with DBin b => b | _ => [] end) = [2; 0; 5; 0].
+Proof. eexists. split; [vm_compute; reflexivity|]. vm_compute. reflexivity. Qed.
 
 (* ORIGIN 3 accepted; an unparsable next hop yields an empty NEXT_HOP whose
    listing panics *)
@@ -183,7 +186,7 @@ Example roundtrip_example :
   wf_attr a /\ core_code (a_code a) = true /\ ~ Known_C17_flags a
   /\ roundtrip toy_p toy_r a = Ok (Some a).
 Proof.
-  cbn zeta. repeat split; try (cbn; lia).
+  cbn zeta. repeat split; try (cbn; lia); try discriminate.
   - repeat constructor; lia.
   - intros [f [E Hne]]. cbn in E. injection E as <-. apply Hne. reflexivity.
 Qed.
